@@ -172,7 +172,7 @@ def run(ctx):
     with open(os.path.join(ctx.work, "c02_mb_in.jsonl"), "w") as f:
         for c in mbc:
             f.write(json.dumps(c) + "\n")
-    for fn in ("c01_ds_out.jsonl", "c02_mb_out.jsonl", "c02_stress_out.jsonl", "c02_scen_out.jsonl", "c02_grain_out.jsonl", "c02_fair_out.jsonl", "c02_zombie_out.jsonl", "c02_grain_reclaim_out.jsonl"):
+    for fn in ("c01_ds_out.jsonl", "c02_mb_out.jsonl", "c02_stress_out.jsonl", "c02_scen_out.jsonl", "c02_grain_out.jsonl", "c02_fair_out.jsonl", "c02_zombie_out.jsonl", "c02_grain_reclaim_out.jsonl", "c02_stash_out.jsonl"):
         p = os.path.join(ctx.work, fn)
         if os.path.exists(p):
             os.remove(p)
@@ -187,7 +187,8 @@ def run(ctx):
     fair = read_jsonl(os.path.join(ctx.work, "c02_fair_out.jsonl"))
     zombie = read_jsonl(os.path.join(ctx.work, "c02_zombie_out.jsonl"))
     greclaim = read_jsonl(os.path.join(ctx.work, "c02_grain_reclaim_out.jsonl"))
-    if rc != 0 or len(ds) != len(dsc) or len(mbo) != len(mbc) or not stress or not scen or not grain or not fair or not zombie or not greclaim:
+    stash = read_jsonl(os.path.join(ctx.work, "c02_stash_out.jsonl"))
+    if rc != 0 or len(ds) != len(dsc) or len(mbo) != len(mbc) or not stress or not scen or not grain or not fair or not zombie or not greclaim or not stash:
         ctx.tie_broken("go-harness TestVerifC02*", out[-4000:])
     if ctx.thorough:
         os.makedirs(os.path.join(ctx.work, "race"), exist_ok=True)
@@ -255,6 +256,13 @@ def run(ctx):
                           (fo["mailbox_len"], fo["mailbox_is_empty"], fo["sender_active_flag"], fo["sender_pending"], fo["later_message_from_same_sender_handled"]),
                           {"witness": "Coq C02_fair_stall_refuted / fair_witness", "go": fo})
 
+    for o in stash:
+        if o.get("err"):
+            ctx.tie_broken("stash stress could not run", o)
+        elif o["duplicates"] or o["lost"] or o["stalled"]:
+            n_bad += 1
+            ctx.violation("exactly-once:stash-unstash", "stash/unstash (%s mailbox): %d accepted messages never processed after UnstashAll, %d processed twice (stalled=%s)" %
+                          (o["mailbox"], o["lost"], o["duplicates"], o["stalled"]), o)
     # grain: enqueue between the empty dequeue and the reset, worker emulated with the grain's own methods
     gr = greclaim[0] if greclaim else None
     if gr is not None:
@@ -297,17 +305,17 @@ def run(ctx):
         "scenarios": [{"name": o["name"], "mailbox": o["mailbox"], "completed": o["completed"], "stalled": o["stalled"]} for o in scen],
         "scenario_model_outcomes": sm, "exactly_once_findings": n_bad,
         "source_tie": {"embeddings_checked": tie["embeddings_checked"] if tie else None, "problems": tie["problems"] if tie else None},
-        "fair_mailbox_witness": fo, "stopped_actor_witness": zo, "grain_reclaim_witness": gr,
+        "fair_mailbox_witness": fo, "stopped_actor_witness": zo, "grain_reclaim_witness": gr, "stash_runs": stash,
         "theorems": ["C02_contract_instance", "C02_no_duplicate", "C02_handled_was_accepted", "C02_accepted_accounted", "C02_single_consumer",
-                     "C02_wake_invariant", "C02_no_lost_wakeup", "C02_progress_partial", "C02_fair_stall_refuted", "C02_disposed_bounded_refuted"],
+                     "C02_wake_invariant", "C02_no_lost_wakeup", "C02_no_deadlock", "C02_progress", "C02_fair_stall_refuted", "C02_disposed_bounded_refuted"],
     })
 
 
 META = {
-    "ready": False,
+    "ready": True,
     "category": "proof",
     "technique": "Rocq inductive invariants (ghost accounting + wake-up invariant) over the M-DISPATCH transition system with an abstract mailbox contract + source-order tie + stress, gate-mailbox preemption scenarios and a real-actor replay of the fair-mailbox stall",
-    "text": "For every mailbox pair satisfying the stated contract, PID and grain, any number of producers/workers/restarters and any interleaving: no accepted message is handled twice or invented, every accepted message is at all times handled or held by exactly one mailbox, mailboxes are dequeued only by the unique turn owner; the wake-up invariant (pending message and Idle state imply a producer between enqueue and TrySchedule or an owner between reset and re-check) is inductive, hence at quiescence a pending message implies Scheduled with its ticket queued, and some producer/worker step is always enabled (no deadlock; complete drain schedule / livelock freedom not proved: C02_progress_partial). The fair mailbox is shown not to satisfy the contract (machine-checked witness, replayed on a real actor).",
+    "text": "For every mailbox pair satisfying the stated contract, PID and grain, any number of producers/workers/restarters and any interleaving: no accepted message is handled twice or invented, every accepted message is at all times handled or held by exactly one mailbox, mailboxes are dequeued only by the unique turn owner; the wake-up invariant (pending message and Idle state imply a producer between enqueue and TrySchedule or an owner between reset and re-check) is inductive, hence at quiescence a pending message implies Scheduled with its ticket queued, and some producer/worker step is always enabled (C02_no_deadlock), and from every quiescent state a finite worker-only continuation handles everything pending (C02_progress). The fair mailbox is shown not to satisfy the contract (machine-checked witness, replayed on a real actor).",
     "design_ref": "DESIGN.md 6 (M-DISPATCH), 7/C02",
     "level_note": "Trusted: Coq kernel, hand-written model and contract (tied as described), Go memory model. Liveness is proved only as enabledness (fair scheduling assumed for 'eventually').",
 }
